@@ -222,7 +222,18 @@ impl RuleConfiguration for ConvertRequire {
     }
 
     fn serialize_to_properties(&self) -> RuleProperties {
-        RuleProperties::new()
+        let mut properties = RuleProperties::new();
+        let default_rule = Self::default();
+
+        if self.current != default_rule.current {
+            properties.insert("current".to_owned(), (&self.current).into());
+        }
+
+        if self.target != default_rule.target {
+            properties.insert("target".to_owned(), (&self.target).into());
+        }
+
+        properties
     }
 
     fn set_metadata(&mut self, metadata: RuleMetadata) {
